@@ -12,7 +12,7 @@ RULE = ("all shapes with 1..4 axes and lengths 1..7 with product <= bound (quick
         "thorough 2401 = everything) x random non-antisymmetric dyadic data (2 vectors per shape; ramps hide partner "
         "errors) x 4 fills; exact comparison of bit patterns with the model's rationals / fill tags; metamorphic "
         "relations on the implementation: mass (fill zero), fold(fold0 x) = fold0 x, fold(reverse x) = fold x; "
-        "CLI `sfs fold --fill` on text input for a slice. non-trivial = at least one filled and one folded cell")
+        "CLI `sfs fold --fill` on text input for a slice. non-trivial = at least one filled and one folded cell; decimal values compared bit for bit with IEEE 0.5*a + 0.5*b, infinities on every diagonal cell")
 
 FILLS = ["nan", "zero", "minus-one", "inf"]
 
@@ -56,6 +56,8 @@ def check(rep, tier, seed):
     rep.coverage["shapes"] = len(shapes)
     cases = []
     base = []   # (shape, data list) for metamorphic checks
+    # axes longer than the enumerated 1..7 (a per-row shortcut for "long" rows would only show there), of unequal lengths
+    shapes = list(shapes) + [(2, 3, 16), (3, 2, 17), (20, 16), (2, 2, 3, 16), (40,), (3, 16), (16, 3), (17, 2, 2), (33, 2), (2, 33), (5, 64), (130,)]
     for sh in shapes:
         E = elements(sh)
         for rep_i in range(3 if tier == "quick" else 4):
@@ -112,6 +114,38 @@ def check(rep, tier, seed):
     # C05_ext_*): entries are small integers, so f64 is exact and the model's value is the required one
     compare_cases(rep, "fold-nonfinite-vs-model", ["fold %s %s %s" % (fmt(sh), ",".join(tokf(v) for v in vals), f) for sh, vals, f in nf],
                   classify=lambda c, m, i: "fold:nonfinite")
+
+    # decimal values (no dyadic fractions: 0.1, 0.7, 12.35): every kept cell is the correctly rounded IEEE value of x + mirror
+    # (0.5*x + 0.5*mirror on the diagonal) - bit for bit, so that a cell and its mirror image agree, a second fold changes
+    # nothing and the mirrored input folds to the same spectrum; and infinite entries ON the diagonal stay infinite
+    import struct as _stf
+    bits = lambda x: _stf.unpack("<Q", _stf.pack("<d", x))[0]
+    dec = []
+    for sh in ([3], [5], [2, 2], [3, 3], [2, 4], [4, 2], [3, 5], [2, 3, 2], [3, 1, 3], [3, 3, 3], [2, 2, 2, 3]):
+        for _ in range(2):
+            dec.append((sh, [rng.randrange(1, 2000) / 100.0 for _ in range(elements(sh))]))
+        idxs_ = list(itertools.product(*[range(n) for n in sh]))
+        Tm = sum(sh) - len(sh)
+        diag = [i_ for i_, ix in enumerate(idxs_) if 2 * sum(ix) == Tm]
+        for dcell in diag[:3]:
+            v_ = [float(rng.randrange(1, 50)) for _ in range(elements(sh))]
+            v_[dcell] = math.inf
+            dec.append((sh, v_))
+    deco = run_impl(["fold %s %s zero" % (fmt(sh), ",".join("0x%016x" % bits(v) for v in vals)) for sh, vals in dec])
+    for (sh, vals), o in zip(dec, deco):
+        rep.count("fold-decimal-bitexact", "%s" % fmt(sh), True)
+        idxs_ = list(itertools.product(*[range(n) for n in sh]))
+        Tm = sum(sh) - len(sh)
+        want = []
+        for i_, ix in enumerate(idxs_):
+            mv_ = vals[len(vals) - 1 - i_]
+            want.append(vals[i_] + mv_ if 2 * sum(ix) < Tm else (0.5 * vals[i_] + 0.5 * mv_ if 2 * sum(ix) == Tm else 0.0))
+        t_ = o.split()
+        got = t_[1].split(",") if len(t_) >= 2 else []
+        if got != ["0x%016x" % bits(w) for w in want]:
+            rep.fail(kind="property-oracle", cls="fold:nonfinite" if any(v == math.inf for v in vals) else "fold:decimal-bits", case="fold %s %s zero" % (fmt(sh), ",".join(repr(v) for v in vals)),
+                     observed=o[:400], expected=",".join("0x%016x" % bits(w) for w in want)[:400],
+                     detail="folding decimal values: a kept cell is not the correctly rounded x + mirror / 0.5*x + 0.5*mirror (compared bit for bit)")
 
     def nontrivial(c, m):
         toks = m.split()[1].split(",") if len(m.split()) > 1 else []
